@@ -1,6 +1,7 @@
 package rules
 
 import (
+	"go/types"
 	"sort"
 	"strings"
 
@@ -26,7 +27,7 @@ func C12(c *Ctx) {
 	r := c.R
 	r.Explain = "Decided statically (determinism preconditions of replay, not the replay): (R1) replay does not re-log: storeOperation is guarded by the storeOperation parameter, ReplayOperationsLog passes false, signing operations are never logged; " +
 		"(R2) all round entropy comes from the seed: the per-round suite is NewBLS12381Suite(sha256(roundID‖baseSeed)), the dealer reader is frand.NewCustom(seed…) with the machine's base seed, the long-term key is drawn from the base suite's stream, the base suite is re-created from the seed at both assignment sites (every successful SetBaseSeed re-creates it), and both seed derivations are the same pbkdf2 expression; " +
-		"(R3) replayed handlers call no clock/randomness/uuid except the at-rest encryption nonce, and map iterations in them are reviewed as order-insensitive for what the property compares; (R4) log after compute, result file after log. " +
+		"(R3) replayed handlers call no clock/randomness/uuid except the at-rest encryption nonce, and map iterations in them are reviewed as order-insensitive for what the property compares, and the handlers keep no state on the Machine besides the round's DKG instance and the durable store (a field they both write and read would make an operation's outcome depend on earlier operations, which restart + replay does not restore); (R4) log after compute, result file after log. " +
 		"NOT decided: equality of keys/shares with an uninterrupted run (execution), kyber's determinism given a seeded suite."
 	r.Trusted = []string{"corestario/kyber seeded suite determinism", "lukechampine.com/frand.NewCustom determinism", "pbkdf2/sha256", "VTA call graph"}
 	r.Rule("C12/R1", "replay does not re-log", 3)
@@ -186,7 +187,76 @@ func C12(c *Ctx) {
 			r.Note("C12/R3 reviewed: %s", rv)
 		}
 		r.Check(len(reviewed) >= 2, "C12/R3", "airgapped.GetOperationResult:reviewed-map-ranges", "the reviewed map iterations are still where they were confirmed", c.Pos(gor.Pos()), sprintf("%d reviewed sites found", len(reviewed)))
+		c12MachineMemory(c, gor)
 	}
+}
+
+// c12MachineMemory — the outcome of an operation may depend on the machine's keys/seed, on the durable store and on the
+// round's DKG instance (which replay rebuilds), and on nothing else the machine remembers: a field of Machine that the
+// handlers both write and read carries information from one operation (or round) to the next that a restart + replay of
+// the round's log does not restore.
+func c12MachineMemory(c *Ctx, gor *ssa.Function) {
+	r := c.R
+	scope := map[*ssa.Function]bool{}
+	cg := c.P.CallGraph()
+	var walk func(f *ssa.Function)
+	walk = func(f *ssa.Function) {
+		if f == nil || scope[f] || !load.InModule(f) || !c.P.AllFuncs()[f] {
+			return
+		}
+		scope[f] = true
+		if n := cg.Nodes[f]; n != nil {
+			for _, e := range n.Out {
+				walk(e.Callee.Func)
+			}
+		}
+	}
+	walk(gor)
+	allowed := map[string]string{
+		"dkgInstances": "the round's DKG instance, rebuilt by replaying the round's log",
+	}
+	written, read := map[string]string{}, map[string]bool{}
+	for f := range scope {
+		ssax.Instrs(f, func(in ssa.Instruction) {
+			fa, ok := in.(*ssa.FieldAddr)
+			if !ok || ssax.OwnerName(fa) != "Machine" || ssax.FieldOf(fa) == nil || fa.Referrers() == nil {
+				return
+			}
+			if n, isN := deref(fa.X.Type()).(*types.Named); !isN || n.Obj().Pkg() == nil || !strings.HasSuffix(n.Obj().Pkg().Path(), "/airgapped") {
+				return
+			}
+			name := ssax.FieldOf(fa).Name()
+			for _, u := range *fa.Referrers() {
+				switch x := u.(type) {
+				case *ssa.Store:
+					if x.Addr == ssa.Value(fa) {
+						written[name] = c.PosOf(u)
+					}
+				case *ssa.UnOp:
+					// a load: the field's value is read; a map/slice reached through it may also be updated
+					read[name] = true
+					if x.Referrers() != nil {
+						for _, uu := range *x.Referrers() {
+							if mu, isMU := uu.(*ssa.MapUpdate); isMU && mu.Map == ssa.Value(x) {
+								written[name] = c.PosOf(uu)
+							}
+						}
+					}
+				}
+			}
+		})
+	}
+	var bad []string
+	for name, pos := range written {
+		if _, ok := allowed[name]; ok || !read[name] {
+			continue
+		}
+		bad = append(bad, "Machine."+name+" (written at "+pos+")")
+	}
+	sort.Strings(bad)
+	r.Check(len(bad) == 0, "C12/R3", "airgapped.Machine:no-memory-across-operations", "handlers keep no state on the machine besides the round's DKG instance and the durable store", c.Pos(gor.Pos()),
+		"fields written and read by the operation handlers: "+strings.Join(bad, ", ")+" — what an operation yields then depends on earlier operations (possibly of other rounds), which a restart followed by a replay of the round's log does not reproduce")
+	r.Count("machine_fields_written_by_handlers", len(written))
 }
 
 func c12Nondeterminism(c *Ctx, root *ssa.Function) (bad, reviewed []string) {
